@@ -88,6 +88,21 @@ def if_stmt(src, anchor):
     bc = L.match_close(src, bo)
     return src[a:bc + 1], a, bc + 1
 
+def if_else_stmt(src, anchor):
+    """the whole `if COND { .. } else if .. { .. } else { .. }` statement starting at anchor (every else branch included)."""
+    a = L.find_code(src, anchor)
+    if a < 0: raise LostAnchor(anchor)
+    pos = a
+    while True:
+        bo = L.body_open(src, pos)
+        bc = L.match_close(src, bo)
+        m = re.match(r'\s*else\s*', src[bc + 1:])
+        if not m: return src[a:bc + 1], a, bc + 1
+        pos = bc + 1 + m.end()
+        if not src.startswith('if ', pos):
+            bc = L.match_close(src, pos)
+            return src[a:bc + 1], a, bc + 1
+
 def if_condition(src, anchor):
     """the condition text of the `if` that starts at anchor (anchor = 'if ' + beginning of the condition)."""
     a = L.find_code(src, anchor)
